@@ -500,6 +500,11 @@ class Shell:
         except SystemExit:
             return
 
+        # An OPCODE may spell a branch: look at what will actually be executed.
+        if any(isinstance(op, Branch) for op in program.code):
+            print("execute cannot take branching operations.")
+            return
+
         vm = self.debugger.vm
         opc = vm.pc
         try:
